@@ -352,8 +352,11 @@ def run_case(mod, sc, case, stats, tier, findings, raise_known=False, record=Tru
             if hh not in stats.nontrivial:
                 stats.nontrivial.add(hh)
                 t["nontrivial"] += 1
-                if sum(1 for s in stats.samples if s["sub_check"] == sc.name) < 1 and len(js) < 4000:
-                    stats.samples.append({"sub_check": sc.name, "labels": sorted(ctx.labels), "case": json.loads(js)})
+                if sum(1 for s in stats.samples if s["sub_check"] == sc.name) < 1:
+                    if len(js) < 4000:
+                        stats.samples.append({"sub_check": sc.name, "labels": sorted(ctx.labels), "case": json.loads(js)})
+                    else:   # large case: keep a truncated rendering so that evidence always shows what a case looks like
+                        stats.samples.append({"sub_check": sc.name, "labels": sorted(ctx.labels), "case_json_truncated": js[:1500], "case_json_length": len(js)})
     return ctx
 
 
